@@ -27,7 +27,9 @@ def gen_module(rnd, max_depth=4, budget=40):
             r = rnd.random()
             if r < 0.30 and depth < max_depth:
                 name = fresh('f')
-                params = rnd.choice(['', 'a', 'a, b=1', '*args, **kw', 'self', 'self, x', 'cls'])
+                params = rnd.choice(['', 'a', 'a, b=1', '*args, **kw', 'self', 'self, x', 'cls',
+                                     'a: int, b: str = "s"', '*args: int, **kw: str', 'self, x: "object" = None',
+                                     'a: int = 1, /, *, key: list = None'])
                 deco = rnd.random() < 0.3
                 if deco:
                     d = rnd.choice(DECOS)
